@@ -7,7 +7,8 @@
      nodes : ';'-separated, per node  <flags>/<dkey>/<succ>   flags: f foreign, m manifest, - none
      d0    : ','-separated node ids initially in the destination, or '-'
      trace : ','-separated event tokens or '-': the tokens of ml/c01_main.ml plus
-             XX.n  SX.n  PX.n.ref.stored  TX.n.set  QK  QX  CN
+             XX.n  SX.n  PX.n.ref.stored  TX.n.set  MX.n.stored  MB.n  ME.n.(m|s|c)  QK  QX  CN
+     api   : followed by m when the destination is a registry.Mounter and MountFrom is set
    output: <id> ACC ret=<1|0|-> tag=<n|-> dst=<ids> closed=<1|0>
              closed = the destination was link-closed after EVERY event of the trace (self-check of
              the model-side predicate; the theorem C02_closed_always says it is always 1)
@@ -44,6 +45,11 @@ let event_of tok =
   | ["SX"; n] -> SFX (nn n)
   | ["PX"; n; r; s] -> PuX (nn n, bb r, bb s)
   | ["TX"; n; s] -> TagX (nn n, bb s)
+  | ["MX"; n; s] -> MtX (nn n, bb s)
+  | ["MB"; n] -> Ev (MtB (nn n))
+  | ["ME"; n; "m"] -> Ev (MtE (nn n, MMounted))
+  | ["ME"; n; "s"] -> Ev (MtE (nn n, MSkipped))
+  | ["ME"; n; "c"] -> Ev (MtE (nn n, MCopied))
   | ["QK"] -> ProOk
   | ["QX"] -> ProX
   | ["CN"] -> Cancel
@@ -55,6 +61,8 @@ let () =
     | id :: sn :: sk :: sapi :: sroots :: snodes :: sd0 :: strace :: _ ->
       (try
         let n0 = int_of_string sn in
+        let mount = String.length sapi = 2 && sapi.[1] = 'm' in
+        let sapi = String.sub sapi 0 1 in
         let ext = (sapi = "x") in
         let n = if ext then n0 + 1 else n0 in
         let specs = Array.of_list (String.split_on_char ';' snodes) in
@@ -87,7 +95,7 @@ let () =
                     g_foreign = (fun x -> get foreign false x);
                     g_ismf = (fun x -> get ismf false x);
                     g_dkey = (fun x -> let i = int_of_nat x in nat_of_int (if i < n then dkey.(i) else 1000000 + i)) } in
-          let c = { c_K = eff_K_gen (z_of_int (int_of_string sk)); c_mode = mode; c_root = nat_of_int root; c_mount = false;
+          let c = { c_K = eff_K_gen (z_of_int (int_of_string sk)); c_mode = mode; c_root = nat_of_int root; c_mount = mount;
                     c_tagmounted = true; c_cached0 = []; c_xroots = List.map nat_of_int xroots } in
           let closed = ref (closedb g d0) in
           let rec go fs tr i =
